@@ -346,6 +346,21 @@ def norm(node: ast.AST) -> str:
     return ast.unparse(node)
 
 
+class _AnonBases(ast.NodeTransformer):
+    def visit_Attribute(self, node):
+        v = node.value
+        if isinstance(v, ast.Name):
+            return ast.Attribute(value=ast.Name(id="_", ctx=ast.Load()), attr=node.attr, ctx=node.ctx)
+        return ast.Attribute(value=self.visit(v), attr=node.attr, ctx=node.ctx)
+
+
+def norm_anon(node: ast.AST) -> str:
+    """Normalised text with the base local of every attribute chain replaced by '_' - a key that survives a
+    rename of the local holding the object (NewCond.DryYield -> _.DryYield)."""
+    import copy
+    return ast.unparse(ast.fix_missing_locations(_AnonBases().visit(copy.deepcopy(node))))
+
+
 _PROGRAM_CACHE: Dict[str, Program] = {}
 
 
